@@ -73,9 +73,28 @@ def _func_state(fn, out, where):
             pass
 
 
+def process_state():
+    """Interpreter-wide state a decoder could leave behind: redirected streams, cwd, environment, sys.path, limits."""
+    import locale
+    import os
+    env = hashlib.blake2b(repr(sorted(os.environ.items())).encode(), digest_size=6).hexdigest()
+    try:
+        cwd = os.getcwd()
+    except OSError:
+        cwd = '<gone>'
+    try:
+        loc = locale.setlocale(locale.LC_ALL)
+    except Exception:
+        loc = '?'
+    return ['process.cwd=%s' % cwd, 'process.environ=%s' % env, 'process.sys.path=%s' % hashlib.blake2b(repr(sys.path).encode(), digest_size=6).hexdigest(),
+            'process.stdout=%d' % id(sys.stdout), 'process.stderr=%d' % id(sys.stderr), 'process.stdin=%d' % id(sys.stdin),
+            'process.recursionlimit=%d' % sys.getrecursionlimit(), 'process.locale=%s' % (loc,),
+            'process.meta_path=%d' % len(sys.meta_path), 'process.excepthook=%d' % id(sys.excepthook)]
+
+
 def snapshot():
     """-> sorted list of 'location=canonical value' strings"""
-    out = []
+    out = process_state()
     for name in sorted(sys.modules):
         if not owned(name):
             continue
@@ -148,6 +167,13 @@ class Snapshot:
     """Deep copy of all module-level / class-level mutable state of the owned packages, restorable in place."""
 
     def __init__(self):
+        import os
+        self.process = {'stdout': sys.stdout, 'stderr': sys.stderr, 'stdin': sys.stdin, 'environ': dict(os.environ),
+                        'path': list(sys.path), 'recursionlimit': sys.getrecursionlimit(), 'excepthook': sys.excepthook}
+        try:
+            self.process['cwd'] = os.getcwd()
+        except OSError:
+            self.process['cwd'] = None
         self.modules = {}
         self.loaded = set(n for n in sys.modules if owned(n))
         for name in sorted(self.loaded):
@@ -181,6 +207,22 @@ class Snapshot:
             self.modules[name] = g
 
     def restore(self):
+        import os
+        pr = self.process
+        sys.stdout, sys.stderr, sys.stdin, sys.excepthook = pr['stdout'], pr['stderr'], pr['stdin'], pr['excepthook']
+        if dict(os.environ) != pr['environ']:
+            os.environ.clear()
+            os.environ.update(pr['environ'])
+        if sys.path != pr['path']:
+            sys.path[:] = pr['path']
+        if sys.getrecursionlimit() != pr['recursionlimit']:
+            sys.setrecursionlimit(pr['recursionlimit'])
+        if pr['cwd']:
+            try:
+                if os.getcwd() != pr['cwd']:
+                    os.chdir(pr['cwd'])
+            except OSError:
+                os.chdir(pr['cwd'])
         for name in [n for n in sys.modules if owned(n) and n not in self.loaded]:
             del sys.modules[name]
             parent, _, leaf = name.rpartition('.')
